@@ -106,8 +106,72 @@ def sweep(ids):
     return summary
 
 
+def _lane(args):
+    """one lane of the parallel sweep: its own copy of /verif (with build output) and its own worktree of /repo"""
+    lane, ids, root = args
+    vd, rd = f"{root}/verif_{lane}", f"{root}/repo_{lane}"
+    sh(f"git -C /repo worktree remove --force {rd}")
+    sh(f"rm -rf {vd} {rd}")
+    rc, out = sh(f"git -C /repo worktree add -q --detach {rd} HEAD")
+    assert rc == 0, out
+    rc, out = sh(f"mkdir -p {vd} && rsync -a --exclude .git --exclude replays --exclude seeded {VERIF}/ {vd}/")
+    assert rc == 0, out
+    res = {}
+    try:
+        for mid in ids:
+            prop = mid.split("-")[0]
+            rc, out = sh(f"git apply {VERIF}/seeded/{mid}/patch.diff", cwd=rd)
+            if rc != 0:
+                res[mid] = "patch does not apply: " + out[-200:]
+                continue
+            try:
+                rc, out = sh(f"./check {prop}", cwd=vd, env={"NIR_REPO": rd}, timeout=3600)
+                lines = [l for l in out.splitlines() if l.startswith(("VIOLATION", "OK", "KNOWN", "INFRA"))]
+                if rc == 1 and any(l.startswith("VIOLATION") and not l.endswith("no-failing-input-found") for l in lines):
+                    res[mid] = "exit 1, VIOLATION with failing-input replay"
+                elif rc == 1:
+                    res[mid] = "exit 1, VIOLATION no-failing-input-found (tie broken, no failing input located)"
+                else:
+                    res[mid] = f"exit {rc}: NOT DETECTED ({lines[:1]})"
+            finally:
+                sh("git checkout -- .", cwd=rd)
+            print(mid, res[mid], flush=True)
+    finally:
+        sh(f"git -C /repo worktree remove --force {rd}")
+        sh(f"rm -rf {vd} {rd}")
+    return res
+
+
+def psweep(ids, lanes=8, root="/var/tmp/nirverif-sweep"):
+    """the sweep on `lanes` private copies in parallel (NIR_REPO points each check at its own worktree; /repo and
+    /verif's own build output are not touched); outcomes are recorded in meta.json like `sweep` does"""
+    import multiprocessing as mp
+    os.makedirs(root, exist_ok=True)
+    parts = [(i, ids[i::lanes], root) for i in range(lanes)]
+    with mp.get_context("fork").Pool(lanes) as pool:
+        outs = pool.map(_lane, parts)
+    summary = {}
+    for o in outs:
+        summary.update(o)
+    for mid, result in summary.items():
+        prop = mid.split("-")[0]
+        mp_ = os.path.join(VERIF, "seeded", mid, "meta.json")
+        meta = json.load(open(mp_))
+        meta["breaks_property"] = prop
+        meta["checked_with"] = {"command": f"git -C /repo apply seeded/{mid}/patch.diff && ./check {prop} ; git -C /repo checkout -- .",
+                                "result": result}
+        json.dump(meta, open(mp_, "w"), indent=1)
+    sh(f"rm -rf {root}")
+    return summary
+
+
 if __name__ == "__main__":
-    if sys.argv[1] == "sweep":
+    if sys.argv[1] == "psweep":
+        ids = sys.argv[2:] or sorted(os.listdir(os.path.join(VERIF, "seeded")))
+        out = psweep(ids)
+        bad = {k: v for k, v in out.items() if "failing-input replay" not in v}
+        print(json.dumps(bad, indent=1))
+    elif sys.argv[1] == "sweep":
         ids = sys.argv[2:] or sorted(os.listdir(os.path.join(VERIF, "seeded")))
         sweep(ids)
     elif sys.argv[1] == "confirm":
